@@ -23,8 +23,9 @@ META = dict(
                "collect_tag_updates, the Block Time / Scope Time handlers): for every sequence of tag operations of the "
                "repaired code between two reports taken at tick boundaries, every tag whose reported value differs from "
                "before is in the next report with its current value; a report never names a tag twice; a snapshot names "
-               "exactly all tags. A table regenerated from the source on every run shows that no Tag subclass assigns "
-               "its value outside the primitives. The model is tied to the real classes by differential execution "
+               "exactly all tags. A table regenerated from the source on every run (every assignment to an attribute value / "
+               "simulated_value / simulated on ANY receiver, and every setattr, in all of openpectus/engine and "
+               "openpectus/lang/exec) shows that no tag field is assigned outside Tag's notifying primitives. The model is tied to the real classes by differential execution "
                "(exhaustive short operation sequences, long random ones, and recorded traces of real engine runs).",
     level_note="Model follows the code repaired by fixes/C36-notify-clock-tags-and-simulation-changes.diff (Block Time / "
                "Scope Time assigned self.value without notifying; stop_simulation compared after clearing; "
@@ -32,12 +33,15 @@ META = dict(
                "reports a violation. Trusted: Lean kernel, the harness (trace recorder, canonical encoding), the AST "
                "translator. Not modelled: DerivedTag, value_formatted, the order inside a report; "
                "`simulate_value(None, …)` (never issued by the interpreter) is outside the theorem's operation set; "
-               "reports are taken between ticks.",
+               "reports are taken between ticks. Reports are compared modulo entries that tell the receiver nothing new (a "
+               "notification of an unchanged tag is neither required nor forbidden); the harness UOD has an output tag "
+               "with a safe value so that the safe-state / restore paths (Pause, Hold, Stop, error pause) are exercised.",
     technique="Lean 4 proof (pending-set invariant over operation sequences) + translated source table + differential "
               "correspondence (unit operations, recorded engine traces) + engine-level oracle",
 )
 MODULE = "OPM.Properties.C36"
-REQUIRED = ["OPM.C36.no_silent_assignments", "OPM.C36.primitives_pinned", "OPM.C36.changed_reported",
+REQUIRED = ["OPM.C36.no_silent_assignments", "OPM.C36.other_class_sites_pinned", "OPM.C36.dynamic_setattrs_pinned",
+            "OPM.C36.primitives_pinned", "OPM.C36.changed_reported",
             "OPM.C36.report_value_current", "OPM.C36.report_no_duplicates", "OPM.C36.snapshot_reports_every_tag",
             "OPM.C36.blockTime_never_silent", "OPM.C36.scopeTime_never_silent", "OPM.C36.tick_boundary_clean"]
 CORPUS = Path(__file__).resolve().parent.parent / "corpus" / "C36"
@@ -157,6 +161,7 @@ def run(ctx: Check) -> int:
     n_corpus = len(cases)
     cases += [tagrep.gen_case(rng, malformed=(i % 6 == 5)) for i in range(ctx.n(40, 1000))]
     cases += [tagrep.gen_gap_case(rng, total=ctx.n(180, 400)) for _ in range(ctx.n(3, 40))]   # reports after long gaps
+    cases += [tagrep.gen_lock_case(rng) for _ in range(ctx.n(3, 60))]
     results: dict[int, dict] = {}
 
     def traced(c):
@@ -166,11 +171,12 @@ def run(ctx: Check) -> int:
                 results[k] = with_timeout(60, lambda: tagrep.run_case(c, record=True))
             except ImplTimeout:
                 results[k] = {"lines": ["collect\t0\t0"], "answers": ["TIMEOUT: engine run exceeded 60 s"], "obs": [],
-                              "fields": [], "tick_times": [], "start": 0.0, "raised": [], "skew": 0.0, "classes": {}}
+                              "fields": [], "tick_times": [], "start": 0.0, "raised": [], "skew": 0.0, "classes": {},
+                              "mut": [], "system": []}
         return results[k]
 
     def interesting(c, o):
-        kinds = {ln.split("\t")[0] for ln in traced(c)["lines"]}
+        kinds = {f[3] if f[0] == "sat" else f[0] for f in (ln.split("\t") for ln in traced(c)["lines"])}
         return bool(kinds & {"sim", "simoff", "simfail"}) or any("Block:" in ln for ln in c["pcode"].split("\n"))
 
     ctx.correspond("engine-trace", "Tags", cases, lambda c: traced(c)["lines"], lambda c: traced(c)["answers"],
@@ -200,8 +206,8 @@ def run(ctx: Check) -> int:
                 "stop simulation on 8 tags incl. None-valued and clock tags, Block Time and Scope Time event handlers, "
                 "engine ticks with register reads, notify, report, snapshot; 20 % adversarial time arguments). "
                 "engine-trace: grammar-generated methods (blocks, watches, alarms, macros, waits, marks, commands, "
-                "Simulate / Simulate off incl. failing ones, 1 in 6 malformed) x 40-tick schedules with register "
-                "plans, user commands (Pause/Unpause/Hold/Unhold/Stop/Start/Restart) and reports after 1-5 ticks "
+                "Simulate / Simulate off incl. failing ones, output commands OutA/OutB on a write register with a safe "
+                "value, timed Pause / Hold, 1 in 6 malformed) x 40-tick schedules with register plans, user commands (Pause/Unpause/Hold/Unhold/Stop/Start/Restart) and reports after 1-5 ticks "
                 "(12 % snapshots); plus long-gap runs: 400 ticks of an active run cut into gaps of 1-300 ticks, register "
                 "changes / user commands / the end of a Wait placed in the last 3 ticks of each gap, every gap closed by "
                 "an incremental report or (30 %) a snapshot; non-trivial = a simulation or a block occurs. "
